@@ -446,50 +446,70 @@ KNOWN = {
 
 
 def _cheb(c, unit_norm):
+    """x = norm_x cos(theta_x), y = norm_y cos(theta_y) with theta in (0, pi): every point of the normalisation rectangle.
+    All nine coefficients are non-zero reals (the code skips zero coefficients: `np.argwhere(self.c != 0)`)."""
     geos = c.mod('optiland.geometries')
     CoordinateSystem = c.mod('optiland.coordinate_system').CoordinateSystem
-    R = c.real('R', -50, 50, nonzero=True)
-    k = c.real('k', -3, 2)
-    co = [[c.real('q%d%d' % (i, j), -1e-3, 1e-3) for j in range(3)] for i in range(3)]
+    R = c.real('R', 30, 80, nonzero=True)
+    k = c.real('k', -2, 1)
+    co = [[c.real('q%d%d' % (i, j), 1e-4, 1e-3, nonzero=True) for j in range(3)] for i in range(3)]
     if unit_norm:
         nx_, ny_ = 1.0, 1.0
-        x, y = c.real('x', -0.9, 0.9), c.real('y', -0.9, 0.9)
     else:
-        nx_, ny_ = c.real('norm_x', 4, 20, positive=True), c.real('norm_y', 4, 20, positive=True)
-        x, y = c.real('x', -3, 3), c.real('y', -3, 3)
+        nx_, ny_ = c.real('norm_x', 4, 9, positive=True), c.real('norm_y', 4, 9, positive=True)
+    tx, ty = c.real('theta_x', 0.3, 2.8), c.real('theta_y', 0.3, 2.8)
+    c.require(c.sin(tx) > 0)
+    c.require(c.sin(ty) > 0)
+    c.require(c.cos(tx) <= 1), c.require(c.cos(tx) >= -1), c.require(c.cos(ty) <= 1), c.require(c.cos(ty) >= -1)   # facts about a cosine
     g = geos.ChebyshevPolynomialGeometry(CoordinateSystem(), R, k, 1e-10, 100, c.np.array(co), nx_, ny_)
     g0 = geos.ChebyshevPolynomialGeometry(CoordinateSystem(), R, k, 1e-10, 100, c.np.zeros((3, 3)), nx_, ny_)
+    x, y = nx_ * c.cos(tx), ny_ * c.cos(ty)
     c.require(1 - (1 + k) * (x * x + y * y) / (R * R) > 0)
-    return g, g0, x, y, nx_, ny_
+    return g, g0, tx, ty, nx_, ny_
 
 
-@contract('C02.ChebyshevPolynomialGeometry.surface_normal.unit_normalisation',
-          [CG + ':ChebyshevPolynomialGeometry._surface_normal', CG + ':ChebyshevPolynomialGeometry.sag',
-           CG + ':ChebyshevPolynomialGeometry._chebyshev', CG + ':ChebyshevPolynomialGeometry._chebyshev_derivative'],
-          ['C02'], bundle=True, numeric_only=True)
-def cheb_normal_unit(c):
-    """bounded (the Chebyshev terms go through arccos, which the symbolic model leaves uninterpreted); norm_x = norm_y = 1:
-    the residual of the known finding -- with unit normalisation the reported normal is the normal of the sag"""
-    g, g0, x, y, _, _ = _cheb(c, True)
-    _normal_clauses(c, 'chebyshev.unit_normalisation', g, x, y)
+def _cheb_slopes(c, g, tx, ty, nx_, ny_):
+    """dz/dx, dz/dy of the real sag by the chain rule through x = norm_x cos(theta_x) (dx/dtheta = -norm_x sin theta)"""
+    zt = c.derivative(lambda t: g.sag(c.arr(nx_ * c.cos(t)), c.arr(ny_ * c.cos(ty))), tx)
+    zu = c.derivative(lambda t: g.sag(c.arr(nx_ * c.cos(tx)), c.arr(ny_ * c.cos(t))), ty)
+    return zt / (-nx_ * c.sin(tx)), zu / (-ny_ * c.sin(ty))
 
 
-@contract('C02.ChebyshevPolynomialGeometry.surface_normal', [CG + ':ChebyshevPolynomialGeometry._surface_normal', CG + ':ChebyshevPolynomialGeometry.sag',
-                                                             CG + ':ChebyshevPolynomialGeometry._chebyshev', CG + ':ChebyshevPolynomialGeometry._chebyshev_derivative'],
-          ['C02'], bundle=True, numeric_only=True)
-def cheb_normal(c):
-    """bounded.  KNOWN FINDING: d/dx T_i(x/norm_x) = T_i'(x/norm_x)/norm_x, the code omits the 1/norm_x (1/norm_y)"""
-    g, g0, x, y, nx_, ny_ = _cheb(c, False)
-    _normal_clauses(c, 'chebyshev', g, x, y)
+def _cheb_normal_clauses(c, tag, g, g0, tx, ty, nx_, ny_, pin):
+    x, y = nx_ * c.cos(tx), ny_ * c.cos(ty)
     rays = mk_rays(c, (x, y, 0.0), (0.0, 0.0, 1.0))
+    before = c.snapshot(rays=rays)
     n = tuple(c.val(v) for v in g.surface_normal(rays))
-    zx = c.derivative(lambda t: g.sag(c.arr(t), c.arr(y)), x)
-    zy = c.derivative(lambda t: g.sag(c.arr(x), c.arr(t)), y)
-    zx0 = c.derivative(lambda t: g0.sag(c.arr(t), c.arr(y)), x)
-    zy0 = c.derivative(lambda t: g0.sag(c.arr(x), c.arr(t)), y)
-    # pin: what the code reports instead -- the conic slope plus norm_x (norm_y) times the polynomial slope
-    c.ensure_eq('C02.chebyshev.normal.pin_polynomial_slope_is_not_divided_by_norm_x', n[0] + n[2] * (zx0 + nx_ * (zx - zx0)), 0, tol=2e-6)
-    c.ensure_eq('C02.chebyshev.normal.pin_polynomial_slope_is_not_divided_by_norm_y', n[1] + n[2] * (zy0 + ny_ * (zy - zy0)), 0, tol=2e-6)
+    zx, zy = _cheb_slopes(c, g, tx, ty, nx_, ny_)
+    tol = 5e-6
+    c.ensure_eq('C02.%s.normal.unit' % tag, norm2(n), 1)
+    c.ensure_eq('C02.%s.normal.x_component_follows_sag_slope' % tag, n[0] + n[2] * zx, 0, tol=tol, sym_only=pin)
+    c.ensure_eq('C02.%s.normal.y_component_follows_sag_slope' % tag, n[1] + n[2] * zy, 0, tol=tol, sym_only=pin)
+    c.ensure('C02.%s.normal.points_to_minus_z' % tag, n[2] < 0)
+    c.ensure_frame('C02.%s.normal.pure' % tag, before, c.snapshot(rays=rays), [])
+    if pin:
+        zx0, zy0 = _cheb_slopes(c, g0, tx, ty, nx_, ny_)
+        # pin: what the code reports instead -- the conic slope plus norm_x (norm_y) times the polynomial slope
+        c.ensure_eq('C02.chebyshev.normal.pin_polynomial_slope_is_not_divided_by_norm_x', n[0] + n[2] * (zx0 + nx_ * (zx - zx0)), 0, tol=tol)
+        c.ensure_eq('C02.chebyshev.normal.pin_polynomial_slope_is_not_divided_by_norm_y', n[1] + n[2] * (zy0 + ny_ * (zy - zy0)), 0, tol=tol)
+
+
+CHEB_FUNCS = [CG + ':ChebyshevPolynomialGeometry._surface_normal', CG + ':ChebyshevPolynomialGeometry.sag', CG + ':ChebyshevPolynomialGeometry._chebyshev',
+              CG + ':ChebyshevPolynomialGeometry._chebyshev_derivative', CG + ':ChebyshevPolynomialGeometry._validate_inputs']
+
+
+@contract('C02.ChebyshevPolynomialGeometry.surface_normal.unit_normalisation', CHEB_FUNCS, ['C02'], bundle=True, max_paths=64, concolic=False)
+def cheb_normal_unit(c):
+    """norm_x = norm_y = 1 (the residual of the known finding): the reported normal is the normal of the sag"""
+    g, g0, tx, ty, nx_, ny_ = _cheb(c, True)
+    _cheb_normal_clauses(c, 'chebyshev.unit_normalisation', g, g0, tx, ty, nx_, ny_, False)
+
+
+@contract('C02.ChebyshevPolynomialGeometry.surface_normal', CHEB_FUNCS, ['C02'], bundle=True, max_paths=64, concolic=False)
+def cheb_normal(c):
+    """KNOWN FINDING: d/dx T_i(x/norm_x) = T_i'(x/norm_x)/norm_x, the code omits the 1/norm_x (1/norm_y)"""
+    g, g0, tx, ty, nx_, ny_ = _cheb(c, False)
+    _cheb_normal_clauses(c, 'chebyshev', g, g0, tx, ty, nx_, ny_, True)
 
 
 def _nr_distance(kind):
